@@ -394,9 +394,10 @@ MapConfigs ==
 SelMap(r) == /\ (GForm(r.i1).kind = "full" => r.m >= 2)
              /\ (r.geo = "step" => r.na = 3)
              /\ (PForm(r.j).kind = "gmrf" => r.geo \in {"default", "cont"})
-             /\ (IF Thorough THEN /\ (r.av = 2 => (r.i1 + r.j) % 4 = 0 /\ r.geo = "default")
-                                   /\ (r.geo \in {"cont", "disc"} => (r.i1 + r.j) % 4 = 1)
-                                   /\ (r.geo = "scale" => (r.i1 + r.j) % 2 = 0)
+             /\ (IF Thorough THEN \/ (GForm(r.i1).form = "cov" /\ PForm(r.j).form \in {"cov", "gmrf"})   \* closed-form route: full product
+                                   \/ /\ (r.av = 2 => (r.i1 + r.j) % 4 = 0 /\ r.geo = "default")
+                                      /\ (r.geo \in {"cont", "disc"} => (r.i1 + r.j) % 4 = 1)
+                                      /\ (r.geo = "scale" => (r.i1 + r.j) % 2 = 0)
                  ELSE /\ (r.j \in {1, 5, 13, 17} \/ r.i1 \in {1, 5})
                       /\ (r.geo \in {"cont", "disc"} => r.i1 = 5 /\ r.j \in {1, 13})
                       /\ (r.geo \in {"step", "scale"} => r.i1 \in {1, 5, 13} /\ r.j \in {1, 5, 13})
